@@ -35,7 +35,7 @@ def run(ctx, res):
             res.violation('construction with parser=earley failed or hung: %s' % rec['build'], {'grammar': g, 'lexer': rec['lexer']})
             continue
         if rec.get('timeout'):
-            res.violation('Earley parse did not return within 8 s (the total model finishes the same case)', {'grammar': g, 'text': rec['text'], 'lexer': rec['lexer']})
+            res.violation('Earley parse did not return within 8 s (the total model finishes the same case)', {'grammar': g, 'start': rec.get('start_sym', 'start'), 'starts': rec.get('starts', ['start']), 'text': rec['text'], 'lexer': rec['lexer']})
             continue
         if m is None:
             res.count('lexer_rejected' if rec.get('lexfail') else 'skipped'); continue
@@ -45,16 +45,16 @@ def run(ctx, res):
             raise InfraError('lattice not well-formed')
         amb = sum(len(c) for c in m['cols'])
         res.case(['c01', g, rec['text'], rec['lexer']], nontrivial=len(rec['text']) > 0,
-                 sample={'grammar': g, 'text': rec['text'], 'lexer': rec['lexer'], 'accepted': rec['ok'], 'chart_items': amb} if rec['ok'] and len(rec['text']) > 3 else None)
+                 sample={'grammar': g, 'start': rec.get('start_sym', 'start'), 'starts': rec.get('starts', ['start']), 'text': rec['text'], 'lexer': rec['lexer'], 'accepted': rec['ok'], 'chart_items': amb} if rec['ok'] and len(rec['text']) > 3 else None)
         res.count('lexer_' + rec['lexer']); res.count('accept' if rec['ok'] else 'reject_' + rec.get('err', '?'))
         if rec['ok'] != m['accept']:
             res.violation('parse %s but the text is %s the language (accepts_iff on the spec lattice)' % ('succeeds' if rec['ok'] else 'raises ' + rec.get('err', ''), 'not in' if rec['ok'] else 'in'),
-                          {'grammar': g, 'text': rec['text'], 'lexer': rec['lexer'], 'lark_accepts': rec['ok'], 'in_language': m['accept']})
+                          {'grammar': g, 'start': rec.get('start_sym', 'start'), 'starts': rec.get('starts', ['start']), 'text': rec['text'], 'lexer': rec['lexer'], 'lark_accepts': rec['ok'], 'in_language': m['accept']})
             continue
         # internal: the chart itself
         bad = [i for i, col in rec['cols'].items() if int(i) < len(m['cols']) and m['cols'][int(i)] != col]
         if bad:
-            res.corr_break('Earley column %s differs from the model chart' % bad[0], {'grammar': g, 'text': rec['text'], 'lexer': rec['lexer'], 'column': bad[0],
+            res.corr_break('Earley column %s differs from the model chart' % bad[0], {'grammar': g, 'start': rec.get('start_sym', 'start'), 'starts': rec.get('starts', ['start']), 'text': rec['text'], 'lexer': rec['lexer'], 'column': bad[0],
                                                                                     'code': rec['cols'][bad[0]], 'model': m['cols'][int(bad[0])]})
     # the grammar loader in front of all this (anonymous-terminal naming, pruning of unreachable rules / unused terminals): source-level metamorphic stream
     import compilelib
